@@ -27,4 +27,5 @@ run revert-D3 selftest/mutants/revert-D3-merge-exclusion.patch C06
 run revert-D4 selftest/mutants/revert-D4-time-order.patch C06
 run revert-D5 selftest/mutants/revert-D5-layer-ids.patch C05
 run revert-D6 selftest/mutants/revert-D6-single-hit-bundle.patch C08
+run revert-D9 selftest/mutants/revert-D9-empty-frame.patch C08
 cat $OUT
